@@ -373,10 +373,10 @@ def plan(tier, seed):
     p = []
     q = tier == 'quick'
     for lang in LANGS:
-        p.append({'lang': lang, 'n': 36 if q else 200, 'chunk': 12 if q else 20,
-                  'extra_injections': 0 if q else 7})
-        p.append({'lang': lang, 'n': 12 if q else 100, 'chunk': 12 if q else 20, 'transformations': 0,
-                  'tag': 'noerase', 'extra_injections': 0 if q else 7})
+        p.append({'lang': lang, 'n': 36 if q else 200, 'chunk': 9 if q else 20,
+                  'extra_injections': 5 if q else 7})
+        p.append({'lang': lang, 'n': 12 if q else 100, 'chunk': 6 if q else 20, 'transformations': 0,
+                  'tag': 'noerase', 'extra_injections': 3 if q else 7})
         if not q:
             p.append({'lang': lang, 'n': 60, 'chunk': 20, 'switches': [SWITCHES[2], SWITCHES[3]], 'tag': 'sw',
                       'extra_injections': 3})
@@ -385,10 +385,10 @@ def plan(tier, seed):
 
 def finish(agg, tier):
     q = tier == 'quick'
-    agg.floor('overwrites', 150 if q else 6000)
-    agg.floor('injected', 100 if q else 4000)
-    agg.floor('b-relations-checked', 100 if q else 4000)
-    agg.floor('messages-checked', 100 if q else 4000)
+    agg.floor('overwrites', 400 if q else 6000)
+    agg.floor('injected', 250 if q else 4000)
+    agg.floor('b-relations-checked', 250 if q else 4000)
+    agg.floor('messages-checked', 250 if q else 4000)
     agg.floor('javac-overwritten-runs', 25 if q else 1000)
     return agg.finish(
         rule='judged = TypeOverwriting.transform() runs (the driver\'s injection on generated and erased programs; '
